@@ -108,7 +108,7 @@ fn ngd_index(kind: u32, entries: &[(String, u8, u64)]) -> Vec<u8> {
 }
 fn ngd_mixed_case(p: &str, k: usize) -> String { p.chars().enumerate().map(|(i, c)| if (i + k) % 3 == 0 { c.to_ascii_uppercase() } else { c }).collect() }
 
-//@unit props=C01 label=B tier=quick native=1 fn=gamedata::GameData::{from_existing,exists,find_offset,find_entry,get_index_filenames,parse_repository_category},sqpack::index::SqPackIndex::{from_existing,find_entry,exists,calculate_hash} bound="by execution on temporary installations: base + ex1 + ex2 repositories, 5 categories, chunks 0, 1 and 10, every combination of .index only / .index2 only / both, 1..9 entries per index spread over dat0..dat7 with offsets up to 0x7_FFFF_FF80; every stored path queried in lower and two mixed cases, 12 absent paths, three query orders on one handle"
+//@unit props=C01 label=B tier=quick native=1 fn=gamedata::GameData::{from_existing,exists,find_offset,find_entry,get_index_filenames,parse_repository_category},sqpack::index::SqPackIndex::{from_existing,find_entry,exists,calculate_hash} bound="by execution on temporary installations: base + ex1 + ex2 repositories, 5 categories, chunks 0, 1 and 10, every combination of .index only / .index2 only / both with the same entries / both with disjoint halves of the entries, 1..9 entries per index spread over dat0..dat7 with offsets up to 0x7_FFFF_FF80; every stored path queried in lower and two mixed cases, 12 absent paths, three query orders on one handle"
 //@desc a path exists and resolves exactly when an index of the repository and category it names (any chunk) holds its hash; the answer ignores letter case, is the data file and offset of the index entry (every entry of an index2 file included), and does not depend on earlier queries on the same handle
 #[test]
 fn native_gamedata_lookup() {
@@ -116,7 +116,7 @@ fn native_gamedata_lookup() {
     let offs: [u64; 9] = [0x80, 0x100, 0x0370_0B00, 0xFFFF_FF80, 0x1_0000_0000, 0x1_2345_6780, 0x7_FFFF_FF80, 0x2000, 0x4_0000_0080];
     // (category prefix, category id, repository token or "", repository dir, expansion number)
     let places: [(&str, u32, &str, &str, u32); 6] = [("exd", 0x0a, "", "ffxiv", 0), ("chara", 0x04, "", "ffxiv", 0), ("bg", 0x02, "ffxiv", "ffxiv", 0), ("bg", 0x02, "ex1", "ex1", 1), ("music", 0x0c, "ex2", "ex2", 2), ("common", 0x00, "", "ffxiv", 0)];
-    for layout in 0..3usize { // 0: .index only, 1: .index2 only, 2: both
+    for layout in 0..4usize { // 0: .index only, 1: .index2 only, 2: both with the same entries, 3: both, each holding a different half of the chunk's entries
         let root = std::env::temp_dir().join(format!("physis-verif-c01-{}-{layout}", std::process::id()));
         let _ = std::fs::remove_dir_all(&root);
         let game = root.join("game");
@@ -133,8 +133,9 @@ fn native_gamedata_lookup() {
                     (format!("{cat}/{mid}/sub{}/file_{pi}_{ci}_{i}.dat", i % 3), ((i + pi + ci) % 8) as u8, offs[(i + pi * 2 + ci) % 9])
                 }).collect();
                 let name = format!("{cid:02x}{exp:02x}{chunk:02x}.win32");
-                if layout != 1 { std::fs::write(game.join("sqpack").join(dir).join(format!("{name}.index")), ngd_index(0, &ents)).unwrap(); }
-                if layout != 0 { std::fs::write(game.join("sqpack").join(dir).join(format!("{name}.index2")), ngd_index(1, &ents)).unwrap(); }
+                let (in1, in2): (Vec<(String, u8, u64)>, Vec<(String, u8, u64)>) = if layout == 3 { (ents.iter().step_by(2).cloned().collect(), ents.iter().skip(1).step_by(2).cloned().collect()) } else { (ents.clone(), ents.clone()) };
+                if layout != 1 { std::fs::write(game.join("sqpack").join(dir).join(format!("{name}.index")), ngd_index(0, &in1)).unwrap(); }
+                if layout != 0 { std::fs::write(game.join("sqpack").join(dir).join(format!("{name}.index2")), ngd_index(1, &in2)).unwrap(); }
                 stored.extend(ents);
             }
         }
